@@ -81,6 +81,19 @@ func (w *World) applyFault(orig []byte, f *Fault) []byte {
 		tail := clone(d[len(d)-f.Len:])
 		d = append(d[:32:32], tail...)
 		repairLengths(d)
+	case "skshort_unknown":
+		// the SK payload is NOT last: its body is cut to Len octets, its next-payload field names the unknown
+		// type Val, and a well-formed non-critical payload of that type follows; every length is consistent
+		if len(d) < 32 || f.Len < 0 || 32+f.Len > len(d) || f.Val <= 48 || f.Val > 255 {
+			return nil
+		}
+		d = d[:32+f.Len]
+		d[28] = byte(f.Val)
+		binary.BigEndian.PutUint16(d[30:32], uint16(4+f.Len))
+		tl := 4 + len(f.Data)
+		d = append(d, 0, 0, byte(tl>>8), byte(tl))
+		d = append(d, f.Data...)
+		binary.BigEndian.PutUint32(d[24:28], uint32(len(d)))
 	case "firsttype":
 		if len(d) < 28 || f.Val < 0 || f.Val > 255 {
 			return nil
